@@ -7,6 +7,7 @@ package main
 import (
 	"encoding/hex"
 	"fmt"
+	"regexp"
 	"strconv"
 	"strings"
 
@@ -139,7 +140,7 @@ func sexpStmt(s ast.Stmt) string {
 		return fmt.Sprintf("(set %d %s %s)", l, sexpExprs(x.Lhs), sexpExprs(x.Rhs))
 	case *ast.LocalAssignStmt:
 		if len(x.Names) == 1 && len(x.Exprs) == 1 {
-			if f, ok := x.Exprs[0].(*ast.FunctionExpr); ok && mentions(f.Stmts, x.Names[0]) {
+			if f, ok := x.Exprs[0].(*ast.FunctionExpr); ok && srcLineHasLocalFunction(l) {
 				return fmt.Sprintf("(localfn %d %s %s)", l, x.Names[0], sexpFn(f, false))
 			}
 		}
@@ -180,8 +181,21 @@ func sexpStmt(s ast.Stmt) string {
 	return fmt.Sprintf("(unknown-stmt-%T)", s)
 }
 
-// LuaToSexp parses src with the real parser and serialises the AST.
+var curSrcLines []string
+
+// the parser desugars `local function f` and `local f = function` into the same node; tell them apart by the text
+func srcLineHasLocalFunction(line int) bool {
+	if line < 1 || line > len(curSrcLines) {
+		return false
+	}
+	return localFnRe.MatchString(curSrcLines[line-1])
+}
+
+var localFnRe = regexp.MustCompile(`local\s+function\b`)
+
+// LuaToSexp parses src with the real parser and serialises the AST (not goroutine-safe: dev/corpus tool).
 func LuaToSexp(src string) (string, error) {
+	curSrcLines = strings.Split(src, "\n")
 	chunk, err := parse.Parse(strings.NewReader(src), "<string>")
 	if err != nil {
 		return "", err
